@@ -274,6 +274,12 @@ func c07ChildMain() {
 		return &httpObs{Status: resp.StatusCode, CType: resp.Header.Get("Content-Type"), Body: body}
 	}
 	canary := httpCase{Method: "POST", Header: "application/json", Body: []byte(`{"query":"{ ping }"}`)}
+	// every so often: a full-depth introspection query, then a request that is INVALID against the
+	// schema (required argument missing) — answering an introspection query must not change what the
+	// gateway accepts afterwards
+	introspect := httpCase{Method: "POST", Header: "application/json", Body: []byte(`{"query":"{ __schema { types { name fields { name args { name type { kind name ofType { kind name ofType { kind name } } } } type { kind name ofType { kind name ofType { kind name } } } } inputFields { name type { kind name ofType { kind name } } } } } }"}`)}
+	invalidCanary := httpCase{Method: "POST", Header: "application/json", Body: []byte(`{"query":"{ user { id } }"}`)}
+	served := 0
 	in := bufio.NewReaderSize(os.Stdin, 1<<20)
 	out := bufio.NewWriter(os.Stdout)
 	fmt.Fprintln(out, `{"ready":true}`)
@@ -293,6 +299,18 @@ func c07ChildMain() {
 						obs.HTTP.Canary = "follow-up request got no response: " + k.Err
 					case k.Status != 200 || !bytes.Contains(k.Body, []byte(`"pong"`)):
 						obs.HTTP.Canary = fmt.Sprintf("follow-up request answered %d %s", k.Status, clip(string(k.Body), 80))
+					}
+					served++
+					if obs.HTTP.Canary == "" && served%20 == 1 {
+						post(introspect)
+						var env struct {
+							Data   interface{}   `json:"data"`
+							Errors []interface{} `json:"errors"`
+						}
+						k2 := post(invalidCanary)
+						if k2.Err != "" || json.Unmarshal(k2.Body, &env) != nil || len(env.Errors) == 0 || env.Data != nil {
+							obs.HTTP.Canary = "after an introspection query, the invalid request { user { id } } (required argument missing) was not rejected with errors and data null: " + clip(string(k2.Body), 120) + k2.Err
+						}
 					}
 				}
 				b, _ := json.Marshal(obs)
